@@ -156,9 +156,27 @@ def chan_recv(ex, ch, ins):
 
 
 def chan_close(ex, ch):
+    from .exec import Obligation
     ch = _chan(ch)
     if ex.store[("Cclosed", ch.id)]:
         ex.panic_if(True, "close of closed channel")
+    # schedule-independent protocol condition: every send by another goroutine must happen-before the close.
+    # It does if the closing goroutine has already received that many values, or has joined the sender (WaitGroup).
+    me = ex.task
+    evs = ex.events
+    recvd = sum(1 for e in evs if e["kind"] == "recv" and e["chan"] == ch.id and e["task"] == me)
+    unordered = 0
+    for e in evs:
+        if e["kind"] == "send" and e["chan"] == ch.id and e["task"] != me:
+            s = e["task"]
+            ends = [x["seq"] for x in evs if x["kind"] == "end" and x.get("child") == s]
+            dones = [x for x in evs if x["kind"] == "wg_done" and x["task"] == s]
+            joined = bool(ends) and bool(dones) and any(x["kind"] == "wg_wait" and x["task"] == me and x["seq"] > ends[0] for x in evs)
+            if not joined:
+                unordered += 1
+    if unordered > recvd:
+        ex.ctx.obligations.append(Obligation("channel protocol: close may precede a pending send in some schedule (%d sends not ordered before close, %d received)" % (unordered, recvd),
+                                             ex.guard, "assert"))
     ex.write(("Cclosed", ch.id), True)
 
 
